@@ -446,6 +446,11 @@ def time_models(draw, *, for_fit=False, allow_split=False, with_perm=True, compo
         overlap = draw(st.sampled_from([1, 1, 0])) if compose else draw(st.integers(0, 1))
         c1 = species[:n1]
         c2 = species[max(0, n1 - overlap) : max(0, n1 - overlap) + n2]
+        if n1 >= 2 and draw(st.integers(0, 3)) == 0:
+            # complete overlap: the same label set, listed in another order
+            c2 = list(draw(st.permutations(c1)))
+            if c2 == c1:
+                c2 = c1[::-1]
         b.decay_parallel("mc_d1", c1)
         (b.decay_sequential if decay_kind == "par+seq" else b.decay_parallel)("mc_d2", c2)
         pool += ["mc_d1", "mc_d2"]
@@ -812,6 +817,12 @@ def grid_compose(tier):
                 b.dataset("dataset_1", list(sel), irf="irf1" if irf_kind != "none" else None, ic="j1" if needs_ic else None,
                           mc_scale=[2.0, 0.5, 3.0][:k] if (len(cases) % 3) else None)
                 cases.append(_case(b, {"dataset_1": _axes(time_axis("two_step", 24, 0.0 if irf_kind == "none" else -1.0), SPECTRAL_POOL[2:5])}, "time"))
+        # complete overlap: megacomplexes over the same label set listed in another order
+        for k in (2, 3):
+            for sel in itertools.permutations(["mc_par", "mc_par_r", "mc_osc", "mc_osc_r", "mc_base"], k):
+                b = compose_pool(irf_kind)
+                b.dataset("dataset_1", list(sel), irf="irf1" if irf_kind != "none" else None, mc_scale=[2.0, 0.5, 3.0][:k] if (len(cases) % 2) else None)
+                cases.append(_case(b, {"dataset_1": _axes(time_axis("two_step", 24, 0.0 if irf_kind == "none" else -1.0), SPECTRAL_POOL[2:5])}, "time"))
     return cases
 
 
@@ -823,6 +834,8 @@ def compose_pool(irf_kind):
     b.initial_concentration("j1", b.decay_general("mc_dec", ["s3", "s4"], "branch"))
     b.oscillation("mc_osc", ["osc1", "osc2"])
     b.oscillation("mc_osc2", ["osc2", "oscx"], offset=4)
+    b.decay_parallel("mc_par_r", ["s2", "s1"])
+    b.oscillation("mc_osc_r", ["osc2", "osc1"], offset=2)
     if irf_kind != "none":
         b.oscillation("mc_pfid", ["pf1", "pf2"], kind="pfid")
         b.coherent_artifact("mc_coh", order=2)
